@@ -120,9 +120,6 @@ def r2(rr, repo):
                 n_judged += 1
                 rr.ob('another synchronized source (s is not sender, not ephemeral) is reset with s.new_recv() on every path', bool(resets),
                       za.mod, call, witness=p.pc_text(), key='reset-missing')
-                if resets and binds:
-                    ok2 = p.events.index(resets[0]) < p.events.index(binds[-1])
-                    rr.ob('the reset precedes raising the expected id', ok2, za.mod, binds[-1].node, witness=p.pc_text(), key='reset-order')
             elif resets:
                 rr.violated('a source is reset without testing that it is another, non-ephemeral source', za.mod, resets[0].node, witness=p.pc_text(), key='untested-reset')
             else:
@@ -268,8 +265,8 @@ def r5(rr, repo):
 def summary_region(za):
     """The 'return True' decision of recv_once: flag initialisation, the loop over sources, the final if."""
     for n in walk_scope(za.R_once):
-        if isinstance(n, ast.If) and len(n.body) == 1 and isinstance(n.body[0], ast.Return) and isinstance(n.body[0].value, ast.Constant) \
-                and n.body[0].value.value is True:
+        if isinstance(n, ast.If) and n.body and isinstance(n.body[-1], ast.Return) and isinstance(n.body[-1].value, ast.Constant) \
+                and n.body[-1].value.value is True and not n.orelse:
             par, lst, idx = stmt_list_containing(n)
             j = idx
             while j > 0 and isinstance(lst[j - 1], (ast.For, ast.Assign)) :
@@ -288,7 +285,7 @@ def r6(rr, repo):
     loops = [s for s in region if isinstance(s, ast.For)]
     if len(loops) != 1:
         raise Unresolved(f'{Z}: completion decision: expected one loop over the sources, found {len(loops)}')
-    ev = za.ev()
+    ev = za.ev(unroll_for=2)
     paths = ev.run(region, za.start(za.R_once))
     rr.paths += len(paths)
     n = 0
@@ -297,21 +294,26 @@ def r6(rr, repo):
         if p.outcome is None or not (isret and isconst and val is True):
             continue
         n += 1
-        iters = [v for k, v in p.pc if k.startswith('iterations(')]
-        if iters and iters[0] == 0:
+        iters = [e for e in p.events if e.kind == 'for']
+        if iters and iters[0].args[0] == 'zero':
             rr.violated('reports a complete set although no source was inspected / nothing was received', za.mod, iff, witness=p.pc_text(), key='empty-true')
             continue
-        got_all = [v for k, v in p.facts.items() if k.startswith('eq(') and "'all'" in k and '.got' in k]
-        got_none = [v for k, v in p.facts.items() if k.startswith('eq(') and "'none'" in k and '.got' in k]
-        eph = [v for k, v in p.facts.items() if k.startswith('truthy(__elem__') and k.endswith('.ephemeral)')]
         bal = p.facts.get('truthy(self.balance)')
-        if got_all and got_all[0] is True:
-            rr.holds('returns True with the inspected source complete', za.mod, iff, witness=p.pc_text(), key='true-all')
-        elif got_none and got_none[0] is True:
-            ok = (eph and eph[0] is True) or bal is True
-            rr.ob('an empty source is tolerated only if it is ephemeral or the sources are balanced', ok, za.mod, iff, witness=p.pc_text(), key=f'true-none|eph={eph}|bal={bal}')
-        else:
-            rr.violated('reports a complete set while a source is partial', za.mod, iff, witness=p.pc_text(), key='true-partial')
+        for el in ('__elem__(', '__elem2__('):
+            got_all = [v for k, v in p.facts.items() if k.startswith('eq(') and "'all'" in k and el in k and '.got' in k]
+            got_none = [v for k, v in p.facts.items() if k.startswith('eq(') and "'none'" in k and el in k and '.got' in k]
+            eph = [v for k, v in p.facts.items() if k.startswith(f'truthy({el}') and k.endswith('.ephemeral)')]
+            if not got_all and not got_none:
+                if el == '__elem__(':
+                    rr.violated('reports a complete set without looking at the state of the source', za.mod, iff, witness=p.pc_text(), key='true-unlooked')
+                continue
+            if got_all and got_all[0] is True:
+                rr.holds('returns True with the inspected source complete', za.mod, iff, witness=p.pc_text(), key='true-all')
+            elif got_none and got_none[0] is True:
+                ok = (eph and eph[0] is True) or bal is True
+                rr.ob('an empty source is tolerated only if it is ephemeral or the sources are balanced', ok, za.mod, iff, witness=p.pc_text(), key=f'true-none|eph={eph}|bal={bal}')
+            else:
+                rr.violated('reports a complete set while a source is partial', za.mod, iff, witness=p.pc_text(), key='true-partial')
     # multi-source soundness: flags that must be True at the end are never set True inside the loop and vice versa
     need = {}
     for t, pol in q.conjuncts(iff.test, True):
@@ -350,7 +352,8 @@ def r7(rr, repo):
     paths = ev.run(mq_recv.body)
     rr.paths += len(paths)
     st2 = [e for p in paths for e in p.events if e.kind == 'store' and e.term == 'self.send_state']
-    rr.floor('MQ.recv stores send_state', len(st2), 1, mqm, mq_recv)
+    if not st2:
+        rr.violated('MQ.recv does not keep the state returned by receiver.recv() (ids are not carried to the output)', mqm, mq_recv, key='hop2-missing')
     for e in st2:
         ok = bool(re.fullmatch(r'self\.receiver\.recv\(.*\)\[1\]', e.args[0]))
         rr.ob('MQ.recv keeps element 1 of receiver.recv() (the ZMQStateSend) as self.send_state', ok, mqm, e.node, witness=e.args[0], key='hop2')
